@@ -3,6 +3,8 @@
 package routing
 
 import (
+	"time"
+
 	"github.com/dtn7/dtn7-go/pkg/bpv7"
 	verif "github.com/dtn7/dtn7-go/pkg/zzverif"
 )
@@ -286,6 +288,89 @@ func H20_Feed() {
 		verif.Assert(hi > 0 && adj[0][hi], "the next hop is one of the node's own neighbours")
 		if hi > 0 {
 			verif.Assert(reachFrom(hi)[x], "the next hop lies on a path to the destination")
+		}
+	}
+	verif.Reach("end")
+}
+
+// H20_Neighbours: the node's own link state maintained the way it happens: each of the neighbours a and b goes through
+// one of the histories {never seen, appeared, appeared and lost, appeared, lost and appeared again}, with seconds of
+// (virtual) time in between; both report a live link to d. After the recompute job: an own link is live (cost 0) exactly
+// while the neighbour is connected - also after it had been lost before - and a lost one costs the time since the
+// loss; d is in the table exactly when a neighbour was ever seen, and the next hop is a neighbour of minimum cost.
+func H20_Neighbours() {
+	var log []sendRec
+	c, _ := coreWithPeers("dtlsr", 0, 0, &log)
+	defer c.Close()
+	dl := c.routing.(*DTLSR)
+	ids := []bpv7.EndpointID{bpv7.MustNewEndpointID("dtn://a/"), bpv7.MustNewEndpointID("dtn://b/")}
+	dst := bpv7.MustNewEndpointID("dtn://d/")
+	clas := []*mockCLA{newMockCLA("a", &log), newMockCLA("b", &log)}
+	clas[0].peer, clas[1].peer = ids[0], ids[1]
+	var hist [2]int
+	var lostAt [2]time.Time
+	for i := 0; i < 2; i++ {
+		hist[i] = verif.Choose(nm("hist", i), 4)
+	}
+	// phase 1: appearances; phase 2 (3 s later for a, 5 s later for b): losses; phase 3 (7 s later): re-appearances
+	for i := 0; i < 2; i++ {
+		if hist[i] >= 1 {
+			dl.ReportPeerAppeared(clas[i])
+		}
+	}
+	for i := 0; i < 2; i++ {
+		time.Sleep(time.Duration(3+2*i) * time.Second)
+		if hist[i] >= 2 {
+			dl.ReportPeerDisappeared(clas[i])
+			lostAt[i] = time.Now()
+		}
+	}
+	time.Sleep(7 * time.Second)
+	for i := 0; i < 2; i++ {
+		if hist[i] == 3 {
+			dl.ReportPeerAppeared(clas[i])
+		}
+	}
+	time.Sleep(2 * time.Second)
+	for i := 0; i < 2; i++ {
+		blk := bpv7.NewDTLSRBlock(bpv7.DTLSRPeerData{ID: ids[i], Timestamp: 1, Peers: map[bpv7.EndpointID]bpv7.DtnTime{dst: 0}})
+		b := dataBundle(ids[i].String(), dtlsrBroadcastAddress, uint64(i), func(bl *bpv7.BundleBuilder) { bl.Canonical(blk) })
+		dl.NotifyNewBundle(NewBundleDescriptorFromBundle(b, c.store))
+	}
+	dl.recomputeCron()
+	now := time.Now()
+	// reference costs in milliseconds; -1 = no link
+	var cost [2]int64
+	for i := 0; i < 2; i++ {
+		switch hist[i] {
+		case 0:
+			cost[i] = -1
+		case 1, 3:
+			cost[i] = 0
+		case 2:
+			cost[i] = now.Sub(lostAt[i]).Milliseconds()
+		}
+	}
+	dl.dataMutex.RLock()
+	hop, ok := dl.routingTable[dst]
+	dl.dataMutex.RUnlock()
+	verif.Assert(ok == (cost[0] >= 0 || cost[1] >= 0), "the destination is in the table exactly when a neighbour link is known")
+	if ok {
+		best := -1
+		for i := 0; i < 2; i++ {
+			if cost[i] >= 0 && (best < 0 || cost[i] < cost[best]) {
+				best = i
+			}
+		}
+		hi := -1
+		for i := 0; i < 2; i++ {
+			if hop == ids[i] {
+				hi = i
+			}
+		}
+		verif.Assert(hi >= 0 && cost[hi] >= 0, "the next hop is one of the node's own current or recently lost neighbours")
+		if hi >= 0 && cost[hi] >= 0 {
+			verif.Assert(cost[hi] == cost[best], "the next hop lies on a minimum-cost path: a live link costs nothing (also after it had been lost before), a lost one the time since the loss")
 		}
 	}
 	verif.Reach("end")
